@@ -110,14 +110,16 @@ def _validate_shard(args):
     for m in re.finditer(r'<<"USED", "([^"]*)", \{([^}]*)\}>>', out):
         devs = [d.strip().strip('"') for d in m.group(2).split(",") if d.strip()]
         used.append((m.group(1), devs))
+    follow = [(m.group(1), int(m.group(2)), int(m.group(3)), m.group(4) == "TRUE")
+              for m in re.finditer(r'<<"FOLLOW", "([^"]*)", (\d+), (\d+), (TRUE|FALSE)>>', out)]
     acc = re.search(r'<<"ACCEPTED", (\d+)>>', out)
     rej = re.search(r'<<"REJECTED", (\d+), "([^"]*)", (-?\d+)>>', out)
     if acc:
         return {"ok": True, "used": used, "events": int(acc.group(1)), "out": "", "secs": secs,
-                "states": stats(out)}
+                "states": stats(out), "follow": follow}
     if rej:
         return {"ok": False, "used": used, "at": int(rej.group(1)), "run": rej.group(2),
-                "i": int(rej.group(3)), "out": out[-3000:], "secs": secs, "states": stats(out)}
+                "i": int(rej.group(3)), "out": out[-3000:], "secs": secs, "states": stats(out), "follow": follow}
     raise ToolError("trace validation produced no verdict (rc=%s):\n%s" % (rc, out[-4000:]))
 
 
@@ -137,6 +139,7 @@ def validate(norm_path, module, cfg, cfg_obj, tables_path, workdir, shards=16, t
         buckets[idx % shards].append(r)
     rejected = []
     used = {}
+    follow = {}
     total_events = 0
     total_states = 0
     pending = [(i, b) for i, b in enumerate(buckets) if b]
@@ -155,6 +158,8 @@ def validate(norm_path, module, cfg, cfg_obj, tables_path, workdir, shards=16, t
         nxt = []
         for (i, b), res in zip(pending, results):
             total_states += res["states"][1]
+            for f in res.get("follow", []):
+                follow[f[0]] = f[1:]
             for run, devs in res["used"]:
                 for d in devs:
                     used.setdefault(d, []).append(run)
@@ -181,4 +186,4 @@ def validate(norm_path, module, cfg, cfg_obj, tables_path, workdir, shards=16, t
                 nxt.append((i, rest))
         pending = nxt
     return {"runs": len(runs), "events": total_events, "rejected": rejected, "used": used,
-            "states": total_states, "unchecked_shards": len(pending)}
+            "states": total_states, "unchecked_shards": len(pending), "follow": follow}
